@@ -30,14 +30,18 @@ NullVal(p, s) == IF s = "ref_cell" THEN One
 Cands(p, ra) == {s \in {NullNames(p)[x] : x \in 1..Len(p.null.params)} \cup {"ref_cell"} :
                     Coords(p.alt.L, ra) \subseteq NullCoords(p, s)}
 Chosen(p, ra) == CHOOSE s \in Cands(p, ra) : \A t \in Cands(p, ra) : Cardinality(NullCoords(p, s)) <= Cardinality(NullCoords(p, t))
-Unambiguous(p, ra) == /\ Cands(p, ra) # {}
+(* a rich parameter covered by no single nested parameter (its cells are split between several,
+   e.g. a codon-model exchangeability term whose cells are partly under omega) keeps the default 1 *)
+Unmapped(p, ra) == Cands(p, ra) = {}
+Unambiguous(p, ra) == /\ TRUE
                       /\ \A s, t \in Cands(p, ra) : s # t => Cardinality(NullCoords(p, s)) # Cardinality(NullCoords(p, t))
 
 SameKind(p) == (p.null.kind = "none") = (p.alt.kind = "none")
 (* target state of the single cell a general-model parameter owns, and of the reference cell *)
 TargetOf(L, cells) == (CHOOSE c \in cells : TRUE)[2]
 Projected(p, ra) ==
-    IF SameKind(p) THEN NullVal(p, Chosen(p, ra))
+    IF Unmapped(p, ra) THEN One
+    ELSE IF SameKind(p) THEN NullVal(p, Chosen(p, ra))
     ELSE LET j  == TargetOf(p.alt.L, Coords(p.alt.L, ra))
              jr == TargetOf(p.alt.L, RefCells(p.alt.L, p.alt.pnames))
          IN  RDiv(RMul(p.null.pi[j], NullVal(p, Chosen(p, ra))), p.null.pi[jr])
@@ -52,7 +56,8 @@ NStepT == /\ k <= Len(Pairs) /\ k' = k + 1
           /\ r' = IF k + 1 <= Len(Pairs) THEN [qn |-> Compute(Pairs[k + 1].null), qa |-> Compute(AltInstance(Pairs[k + 1]))] ELSE r
 NStep == NStepT /\ Emit([act |-> "Nested", null |-> Pairs[k].null.name, alt |-> Pairs[k].alt.name,
                          nullparams |-> Pairs[k].null.params, altparams |-> AltInstance(Pairs[k]).params,
-                         chosen |-> [x \in 1..Len(Pairs[k].alt.pnames) |-> <<Pairs[k].alt.pnames[x], Chosen(Pairs[k], Pairs[k].alt.pnames[x])>>],
+                         chosen |-> [x \in 1..Len(Pairs[k].alt.pnames) |-> <<Pairs[k].alt.pnames[x],
+                                        IF Unmapped(Pairs[k], Pairs[k].alt.pnames[x]) THEN "default" ELSE Chosen(Pairs[k], Pairs[k].alt.pnames[x])>>],
                          pi |-> {<<w, Pairs[k].null.pi[w]>> : w \in DOMAIN Pairs[k].null.pi}])
 NSpec == NInit /\ [][NStep]_vars
 
